@@ -11,10 +11,10 @@
        `C08.runs = C09.scan · 0 none = C01.wscan · 0 none = C02.runs`;
     3. per function and model, equality for all inputs (Nat counts cast to Int).
 
-  `SpOk sp` ("`\s` matches no `[a-zA-Z0-9_]`", true of the real regexes) is needed exactly where a
-  model tests `\s` BEFORE `[a-zA-Z0-9_]` (C08.cls for WORD = False, C01.firstWordEnd); witnesses
-  `cls_08_disagree`, `findStartOfPreviousWord_08_disagree_sp`, `findNextWordEnding_01_disagree_sp`.
-  Genuine disagreement: `find_next_word_beginning(count=0)` (`findNextWordBeginning_08_disagree_count0`).
+  History: `C08.cls` (WORD = False) and `C01.firstWordEnd` used to test `\s` BEFORE `[a-zA-Z0-9_]` (then the
+  theorems needed `SpOk sp`), and `C08.findNextWordBeginning` returned `none` for `count = 0`
+  (real code: `Document('ab', 0).find_next_word_beginning(count=0) == 0`).  Both models were repaired;
+  every theorem below now holds without hypotheses.  `SpOk` is kept as a definition only.
 -/
 import Ptk.Props.AgreeDocBase
 import Ptk.Model.C01Cmd
@@ -44,7 +44,8 @@ theorem isWordChar_09 (c : Char) : C09.isWordChar c = C02.isWordChar c := isWord
 /-- document.py::_FIND_WORD_RE `[a-zA-Z0-9_]` — `C01.isWordChar` vs `C02.isWordChar` -/
 theorem isWordChar_01 (c : Char) : C01.isWordChar c = C02.isWordChar c := isWordChar_08 c
 
-/-- the whitespace predicate (`\s`) matches no `[a-zA-Z0-9_]` character; holds for the real regexes -/
+/-- the whitespace predicate (`\s`) matches no `[a-zA-Z0-9_]` character; holds for the real regexes.
+    No theorem of this module needs it any more (kept for `AgreeDocGen`). -/
 def SpOk (sp : Char → Bool) : Prop := ∀ c, C02.isWordChar c = true → sp c = false
 
 /-- document.py::_FIND_WORD_RE / _FIND_BIG_WORD_RE character classes — `C09.cls` vs `C02.cls` -/
@@ -57,22 +58,10 @@ theorem cls_01 (sp : Char → Bool) (WORD : Bool) : C01.wcls sp WORD = C02.cls s
   funext c
   cases WORD <;> simp [C01.wcls, C02.cls, C02.clsBig, C02.clsWord, isWordChar_01]
 
-/-- document.py::_FIND_WORD_RE / _FIND_BIG_WORD_RE character classes — `C08.cls` vs `C02.cls`
-    (`C08.cls` tests `\s` first: equal when WORD = True or `\s` matches no word character) -/
-theorem cls_08 (sp : Char → Bool) (big : Bool) (h : big = true ∨ SpOk sp) :
-    C08.cls sp big = C02.cls sp big := by
+/-- document.py::_FIND_WORD_RE / _FIND_BIG_WORD_RE character classes — `C08.cls` vs `C02.cls` -/
+theorem cls_08 (sp : Char → Bool) (big : Bool) : C08.cls sp big = C02.cls sp big := by
   funext c
-  cases big
-  · have h' : SpOk sp := by simpa using h
-    simp only [C08.cls, C02.cls, C02.clsWord, isWordChar_08, Bool.false_eq_true, if_false]
-    by_cases hw : C02.isWordChar c = true
-    · simp [hw, h' c hw]
-    · simp [hw]
-  · simp [C08.cls, C02.cls, C02.clsBig]
-
-/-- for a (non-realistic) `\s` that matches 'a' the two class functions differ -/
-theorem cls_08_disagree :
-    C08.cls (fun c => c == 'a') false 'a' ≠ C02.cls (fun c => c == 'a') false 'a' := by decide
+  cases big <;> simp [C08.cls, C02.cls, C02.clsBig, C02.clsWord, isWordChar_08]
 
 /-! scanners -/
 
@@ -195,50 +184,38 @@ theorem adjust_nat (rs : List (Nat × Nat)) (count : Nat) :
 /-! C08 -/
 
 /-- document.py::Document.find_start_of_previous_word — `C08.findStartOfPreviousWord` vs `C02.findStartOfPreviousWord` -/
-theorem findStartOfPreviousWord_08 (sp : Char → Bool) (d : C08.Doc) (count : Nat) (big : Bool)
-    (h : big = true ∨ SpOk sp) :
+theorem findStartOfPreviousWord_08 (sp : Char → Bool) (d : C08.Doc) (count : Nat) (big : Bool) :
     C08.findStartOfPreviousWord sp d count big
       = C02.findStartOfPreviousWord sp (of08 d) (count : Int) big := by
-  simp only [C08.findStartOfPreviousWord, C02.findStartOfPreviousWord, cls_08 sp big h, runs_08, nth_08]
+  simp only [C08.findStartOfPreviousWord, C02.findStartOfPreviousWord, cls_08, runs_08, nth_08]
   rfl
 
 /-- document.py::Document.find_next_word_ending — `C08.findNextWordEnding` vs `C02.findNextWordEnding` (include_current_position = False) -/
-theorem findNextWordEnding_08 (sp : Char → Bool) (d : C08.Doc) (count : Nat) (big : Bool)
-    (h : big = true ∨ SpOk sp) :
+theorem findNextWordEnding_08 (sp : Char → Bool) (d : C08.Doc) (count : Nat) (big : Bool) :
     C08.findNextWordEnding sp d count big
       = C02.findNextWordEnding sp (of08 d) false (count : Int) big := by
   have hc : ¬ ((count : Int) < 0) := by omega
   simp only [C08.findNextWordEnding, C02.findNextWordEnding, C02.nextWordEndingPos, hc, if_false,
-    cls_08 sp big h, runs_08, nth_08, Bool.false_eq_true]
+    cls_08, runs_08, nth_08, Bool.false_eq_true]
   rfl
 
 /-- document.py::Document.find_previous_word_ending — `C08.findPreviousWordEnding` vs `C02.findPreviousWordEnding` -/
-theorem findPreviousWordEnding_08 (sp : Char → Bool) (d : C08.Doc) (count : Nat) (big : Bool)
-    (h : big = true ∨ SpOk sp) :
+theorem findPreviousWordEnding_08 (sp : Char → Bool) (d : C08.Doc) (count : Nat) (big : Bool) :
     C08.findPreviousWordEnding sp d count big
       = C02.findPreviousWordEnding sp (of08 d) (count : Int) big := by
   have hc : ¬ ((count : Int) < 0) := by omega
   simp only [C08.findPreviousWordEnding, C02.findPreviousWordEnding, C02.prevWordEndingPos, hc, if_false,
-    cls_08 sp big h, runs_08, nth_08, adjust_nat]
+    cls_08, runs_08, nth_08, adjust_nat]
   rfl
 
-/-- document.py::Document.find_next_word_beginning — `C08.findNextWordBeginning` vs `C02.findNextWordBeginning`, `1 ≤ count` -/
-theorem findNextWordBeginning_08 (sp : Char → Bool) (d : C08.Doc) (count : Nat) (big : Bool)
-    (h : big = true ∨ SpOk sp) (h1 : 1 ≤ count) :
+/-- document.py::Document.find_next_word_beginning — `C08.findNextWordBeginning` vs `C02.findNextWordBeginning`, every Nat count (incl. 0) -/
+theorem findNextWordBeginning_08 (sp : Char → Bool) (d : C08.Doc) (count : Nat) (big : Bool) :
     C08.findNextWordBeginning sp d count big
       = C02.findNextWordBeginning sp (of08 d) (count : Int) big := by
   have hc : ¬ ((count : Int) < 0) := by omega
-  have h0 : count ≠ 0 := by omega
   simp only [C08.findNextWordBeginning, C02.findNextWordBeginning, C02.nextWordBeginningPos, hc, if_false,
-    cls_08 sp big h, runs_08, nth_08, adjust_nat, h0]
+    cls_08, runs_08, nth_08, adjust_nat]
   rfl
-
-/-- disagreement for `count = 0` (real code: `Document('ab', 0).find_next_word_beginning(count=0) == 0`,
-    as C02; C08 returns `none`) -/
-theorem findNextWordBeginning_08_disagree_count0 :
-    C08.findNextWordBeginning (fun c => c == ' ') ⟨['a', 'b'], 0⟩ 0 false
-      ≠ C02.findNextWordBeginning (fun c => c == ' ') ⟨['a', 'b'], 0⟩ 0 false := by decide
-
 
 /-! C09 -/
 
@@ -371,7 +348,7 @@ theorem prefixLen_takeWhile (cl : Char → Nat) (k : Nat) (p : Char → Bool)
 
 theorem cls_false (sp : Char → Bool) : C02.cls sp false = C02.clsWord sp := rfl
 
-theorem firstWordEnd_runsGo (sp : Char → Bool) (hsp : SpOk sp) (t : Text) :
+theorem firstWordEnd_runsGo (sp : Char → Bool) (t : Text) :
     ∀ (f off : Nat), t.length ≤ f →
       ((C02.runsGo (C02.clsWord sp) f off t)[0]?).map (fun r => r.2) =
         (C01.firstWordEnd sp t).map (fun e => off + e) := by
@@ -383,22 +360,28 @@ theorem firstWordEnd_runsGo (sp : Char → Bool) (hsp : SpOk sp) (t : Text) :
     | zero => simp at hf
     | succ f =>
       simp only [List.length_cons, Nat.add_le_add_iff_right] at hf
-      by_cases hs : sp c = true
-      · have hw : C02.isWordChar c = false := by
-          cases hw : C02.isWordChar c with
-          | false => rfl
-          | true => rw [hsp c hw] at hs; cases hs
-        have h0 : C02.clsWord sp c = 0 := by simp [C02.clsWord, hw, hs]
+      by_cases hs : C01.wordSkip sp c = true
+      · have hs2 := hs
+        simp only [C01.wordSkip, isWordChar_01, Bool.and_eq_true, Bool.not_eq_true'] at hs2
+        have h0 : C02.clsWord sp c = 0 := by simp [C02.clsWord, hs2.1, hs2.2]
         have e : C01.firstWordEnd sp (c :: r) = (C01.firstWordEnd sp r).map (· + 1) := by
           simp only [C01.firstWordEnd, List.takeWhile_cons, List.dropWhile_cons, hs, if_true, List.length_cons]
-          cases r.dropWhile sp with
+          cases r.dropWhile (C01.wordSkip sp) with
           | nil => rfl
           | cons x xs => simp; omega
         simp only [C02.runsGo, h0, if_true, e, ih f (off + 1) hf, Option.map_map]
         congr 1; funext x; simp; omega
-      · have hs' : sp c = false := by simpa using hs
+      · have hs' : C01.wordSkip sp c = false := by simpa using hs
         have hne : C02.clsWord sp c ≠ 0 := by
-          simp only [C02.clsWord, hs']; split <;> simp
+          intro h0
+          apply hs
+          simp only [C02.clsWord] at h0
+          simp only [C01.wordSkip, isWordChar_01]
+          split at h0
+          · cases h0
+          · split at h0
+            · simp_all
+            · cases h0
         simp only [C02.runsGo, hne, if_false, List.getElem?_cons_zero, Option.map_some,
           C01.firstWordEnd, List.takeWhile_cons, List.dropWhile_cons, hs', Bool.false_eq_true,
           List.length_nil]
@@ -415,7 +398,11 @@ theorem firstWordEnd_runsGo (sp : Char → Bool) (hsp : SpOk sp) (t : Text) :
             · simp only [C02.clsWord, hx, Bool.false_eq_true, if_false, false_iff]
               split <;> simp
         · have hw1 : C01.isWordChar c = false := by rw [isWordChar_01]; simpa using hw
-          have hk : C02.clsWord sp c = 2 := by simp [C02.clsWord, hw, hs']
+          have hsc : sp c = false := by
+            cases hsc : sp c with
+            | false => rfl
+            | true => simp [C01.wordSkip, hw1, hsc] at hs'
+          have hk : C02.clsWord sp c = 2 := by simp [C02.clsWord, hw, hsc]
           rw [hk, prefixLen_takeWhile (C02.clsWord sp) 2 (fun d => !C01.isWordChar d && !sp d)]
           · simp [hw1]; omega
           · intro x
@@ -425,10 +412,10 @@ theorem firstWordEnd_runsGo (sp : Char → Bool) (hsp : SpOk sp) (t : Text) :
             · by_cases hsx : sp x = true <;> simp [C02.clsWord, hx, hsx]
 
 /-- document.py::Document.find_next_word_ending — `C01.findNextWordEnding` (count = 1, WORD = False, include_current_position = False) vs `C02.findNextWordEnding` -/
-theorem findNextWordEnding_01 (sp : Char → Bool) (hsp : SpOk sp) (b : C01.Buf) :
+theorem findNextWordEnding_01 (sp : Char → Bool) (b : C01.Buf) :
     (C01.findNextWordEnding sp b).map (fun (n : Nat) => (n : Int))
       = C02.findNextWordEnding sp (of01 b) false 1 false := by
-  have h := firstWordEnd_runsGo sp hsp (b.after.drop 1) (b.after.drop 1).length 0 (Nat.le_refl _)
+  have h := firstWordEnd_runsGo sp (b.after.drop 1) (b.after.drop 1).length 0 (Nat.le_refl _)
   rw [← cls_false] at h
   simp only [C01.findNextWordEnding, C02.findNextWordEnding, C02.nextWordEndingPos, C02.nth]
   simp only [show ¬ ((1 : Int) < 0) by omega, show (1 : Int) ≥ 1 by omega, if_true, if_false,
@@ -439,20 +426,5 @@ theorem findNextWordEnding_01 (sp : Char → Bool) (hsp : SpOk sp) (b : C01.Buf)
     cases C01.firstWordEnd sp (List.drop 1 b.after) <;> simp
   rw [h']
   cases (C02.runs (C02.cls sp false) ((of01 b).after.drop 1))[0]? <;> simp
-
-/-- `C08.findNextWordBeginning` with `count = 0` is always `none` -/
-theorem findNextWordBeginning_08_count0 (sp : Char → Bool) (d : C08.Doc) (big : Bool) :
-    C08.findNextWordBeginning sp d 0 big = none := by
-  simp [C08.findNextWordBeginning]
-
-/-- for a (non-realistic) `\s` that matches 'a', C08 (which tests `\s` first) differs from C02 -/
-theorem findStartOfPreviousWord_08_disagree_sp :
-    C08.findStartOfPreviousWord (fun c => c == 'a') ⟨['a'], 1⟩ 1 false
-      ≠ C02.findStartOfPreviousWord (fun c => c == 'a') ⟨['a'], 1⟩ 1 false := by decide
-
-/-- for a (non-realistic) `\s` that matches 'a', `C01.firstWordEnd` (which skips `\s` first) differs from C02 -/
-theorem findNextWordEnding_01_disagree_sp :
-    (C01.findNextWordEnding (fun c => c == 'a') ⟨['a', 'a'], 0⟩).map (fun (n : Nat) => (n : Int))
-      ≠ C02.findNextWordEnding (fun c => c == 'a') ⟨['a', 'a'], 0⟩ false 1 false := by decide
 
 end Ptk.AgreeDoc
